@@ -5,6 +5,7 @@ import Mathlib.Tactic.Ring
 import Mathlib.Tactic.FieldSimp
 import Mathlib.Tactic.NormNum
 import Mathlib.Tactic.Linarith
+import Mathlib.Tactic.Positivity
 import Mathlib.Algebra.Module.Basic
 import Mathlib.Algebra.Order.Field.Basic
 
@@ -471,5 +472,89 @@ theorem takeOneStep_accepts_only_accurate {S : Type} (pow : K → K → K) (acc 
 example : ∀ t : ℚ, 0 ≤ ((fun _ => ((), (0:ℚ), true)) t : Unit × ℚ × Bool).2.1 := fun _ => le_refl _
 
 end Ctl
+
+/-! ## 6. Velocity Verlet; non-negativity of the error norm -/
+section VerletThm
+variable {K V : Type} [Field K] [LinearOrder K] [IsStrictOrderedRing K] [AddCommGroup V] [Module K V]
+
+/-- Velocity Verlet on constant acceleration (`qdot = u`, `udot = a`, `zdot = c`): the iteration converges at
+once, the result is the exact solution `q0 + h u0 + h²/2 a`, `u0 + h a`, `z0 + h c`, and all three error
+estimates vanish. -/
+theorem verlet_exact_for_constant_acceleration (vnorm : V → K) (tiny acc t0 h : K) (q0 u0 z0 a c : V)
+    (hn0 : vnorm 0 = 0) (hacc : 0 ≤ acc) :
+    let deriv : K → V → V → V → V × V × V := fun _ _ u _ => (u, a, c)
+    verletStep vnorm tiny acc deriv t0 (t0 + h) q0 u0 z0 u0 a c a
+      = ((q0 + h • u0 + (h * h / 2) • a, u0 + h • a, z0 + h • c), (0, 0, 0), true) := by
+  intro deriv
+  have htol : (0 : K) ≤ verletTol acc := by
+    simp only [verletTol, cmin]
+    push_cast
+    split_ifs <;> positivity
+  have eu : u0 + (h / 2) • (a + a) = u0 + h • a := by module
+  have ez : z0 + (h / 2) • (c + c) = z0 + h • c := by module
+  simp only [verletStep, verletIter, deriv, add_sub_cancel_left]
+  push_cast
+  simp only [eu, ez, sub_self, hn0, zero_div, cmax, lt_self_iff_false, if_false, if_pos htol]
+  refine Prod.ext rfl (Prod.ext (Prod.ext ?_ (Prod.ext ?_ ?_)) rfl)
+  · simp only; module
+  · simp
+  · simp
+example : (fun _ : ℚ => (0 : ℚ)) 0 = 0 := rfl
+
+end VerletThm
+
+section Norms
+variable {K : Type} [Field K] [LinearOrder K] [IsStrictOrderedRing K]
+
+theorem winf_nonneg (w v : List K) : 0 ≤ winf w v := by
+  simp only [winf]
+  push_cast
+  generalize List.zipWith (fun wi vi => cabs (wi * vi)) w v = l
+  have : ∀ (l : List K) (m : K), 0 ≤ m → 0 ≤ l.foldl (fun m a => if m < a then a else m) m := by
+    intro l
+    induction l with
+    | nil => intro m hm; simpa using hm
+    | cons a l ih =>
+      intro m hm
+      simp only [List.foldl_cons]
+      apply ih
+      split_ifs with h
+      · exact le_trans hm h.le
+      · exact hm
+  exact this l 0 le_rfl
+
+theorem wrms_nonneg (sqrt : K → K) (hs : ∀ x, 0 ≤ sqrt x) (w v : List K) : 0 ≤ wrms sqrt w v := by
+  simp only [wrms]
+  push_cast
+  split_ifs
+  · exact le_rfl
+  · exact hs _
+
+/-- the error norm handed to the controller is never negative (only `0 ≤ sqrt x` is assumed of `sqrt`):
+the hypothesis `hnorm` of `takeOneStep_accepts_only_accurate` holds for `calcErrorNorm` -/
+theorem errNorm_nonneg (sqrt : K → K) (hs : ∀ x, 0 ≤ sqrt x) (useInf : Bool) (wq su sz eq eu ez : List K) :
+    0 ≤ errNorm sqrt useInf wq su sz eq eu ez := by
+  simp only [errNorm]
+  cases useInf <;> simp only [Bool.false_eq_true, if_false, if_true] <;> split_ifs <;>
+    first | exact winf_nonneg _ _ | exact wrms_nonneg sqrt hs _ _
+
+/-- `takeOneStep_accepts_only_accurate` with the error norm instantiated by the modelled `calcErrorNorm`:
+no hypothesis on the norm is left, only `0 ≤ sqrt x` and the `pow` bound. -/
+theorem takeOneStep_calcErrorNorm_accepts_only_accurate {S : Type} (pow : K → K → K) (sqrt : K → K)
+    (hs : ∀ x, 0 ≤ sqrt x) (acc : K) (umax : Option K) (p : Nat) (useInf : Bool) (wq su sz : List K)
+    (stepf : K → S × (List K × List K × List K) × Bool) (t0 tMax : K) (hmax : t0 < tMax) (hacc : 0 < acc)
+    (hpow : ∀ x e, 0 ≤ x → x ≤ 1 → pow x e ≤ 1) (humax : ∀ m, umax = some m → 0 < m)
+    (fuel : Nat) (h : K) (nf : Nat) (hpos : 0 < h) :
+    let attempt : K → S × K × Bool := fun t =>
+      ((stepf t).1, errNorm sqrt useInf wq su sz (stepf t).2.1.1 (stepf t).2.1.2.1 (stepf t).2.1.2.2, (stepf t).2.2)
+    let r := takeOneStep pow acc none umax p attempt t0 tMax fuel h nf
+    r.ok = true → (r.errNormLast ≤ acc ∧ t0 < r.t1 ∧ r.t1 ≤ tMax ∧ r.lastStep = r.t1 - t0) := by
+  intro attempt
+  exact takeOneStep_accepts_only_accurate pow acc umax p attempt t0 tMax hmax hacc hpow
+    (fun t => errNorm_nonneg sqrt hs useInf wq su sz _ _ _) humax fuel h nf hpos
+
+example : ∀ x : ℚ, 0 ≤ (fun _ => (0 : ℚ)) x := fun _ => le_refl _
+
+end Norms
 
 end C20
